@@ -143,6 +143,20 @@ Definition state_matches (g : config) (s : state) (o : obs) : bool :=
   && list_eqb Nat.eqb (map (rnd s) (nodes g)) (o_rnd o)
   && list_eqb npc_eqb (map (pc s) (nodes g)) (o_pc o).
 
+(* The state components are functions; after k merges they are k nested closures, each consulting the previous
+   state twice, which makes direct evaluation exponential. The checker therefore re-tabulates the state after
+   every step on the index ranges the spec uses (nodes 0..N, elements 0..E-1): `freeze` is the identity on those
+   ranges (Shopcart proofs: freeze_agrees) and is used ONLY here, never in `step`. *)
+Definition tab1 {A} (d : A) (n : nat) (f : nat -> A) : nat -> A :=
+  let l := map f (seq 0 n) in fun i => nth i l d.
+Definition freeze (g : config) (s : state) : state :=
+  let nn := S (N g) in
+  let t3 f := tab1 (fun _ _ => 0) nn (fun i => tab1 (fun _ => 0) (E g) (fun e => tab1 0 nn (f i e))) in
+  let a := t3 (addm s) in let r := t3 (remm s) in
+  let k := tab1 (fun _ => false) nn (fun i => tab1 false (E g) (know s i)) in
+  let rd := tab1 0 nn (rnd s) in let p := tab1 NLoop nn (pc s) in
+  mkState a r k (out_ s) rd p.
+
 Definition srec := (event * (nat * option obs))%type.
 
 Fixpoint first_mismatch (g : config) (s : state) (i : nat) (steps : list srec) : option nat :=
@@ -150,7 +164,7 @@ Fixpoint first_mismatch (g : config) (s : state) (i : nat) (steps : list srec) :
   | [] => None
   | (e, (code, oo)) :: rest =>
       let out := step g s e in
-      let s' := match out with Ok s' => s' | _ => s end in
+      let s' := match out with Ok s' => freeze g s' | _ => s end in
       if Nat.eqb (out_code out) code &&
          match oo with
          | Some o => state_matches g s' o
